@@ -16,6 +16,7 @@ pub mod smooth;
 pub mod classify;
 pub mod sinks;
 pub mod conv;
+pub mod wav;
 
 pub fn lookup(id: &str) -> Option<Prop> {
     Some(match id {
@@ -32,6 +33,7 @@ pub fn lookup(id: &str) -> Option<Prop> {
         "C09" => Prop { header: classify::H09, generate: classify::gen09, exec: classify::exec09 },
         "C11" => Prop { header: sinks::HEADER, generate: sinks::generate, exec: sinks::exec },
         "C05" => Prop { header: conv::HEADER, generate: conv::generate, exec: conv::exec },
+        "C07" => Prop { header: wav::HEADER, generate: wav::generate, exec: wav::exec },
         _ => return None,
     })
 }
